@@ -3,14 +3,20 @@ package value
 import (
 	"fmt"
 	"sync"
+	"sync/atomic"
 )
 
 var MutexClass *Class              // ::Std::Sync::Mutex
 var MutexUnlockedErrorClass *Class // ::Std::Sync::Mutex::UnlockedError
 
 // Wraps a Go mutex.
+//
+// Unlocking an unlocked `sync.Mutex` is a fatal runtime error
+// that cannot be recovered, so the lock state is tracked
+// next to the native mutex to report it as an Elk error.
 type Mutex struct {
 	Native sync.Mutex
+	locked atomic.Bool // set after `Native` has been acquired, cleared before it is released
 }
 
 func NewMutex() *Mutex {
@@ -55,14 +61,14 @@ func (*Mutex) InstanceVariables() *InstanceVariables {
 
 func (m *Mutex) Lock() {
 	m.Native.Lock()
+	m.locked.Store(true)
 }
 
 func (m *Mutex) Unlock() (err Value) {
-	defer func() {
-		if r := recover(); r != nil {
-			err = Ref(NewError(MutexUnlockedErrorClass, "cannot unlock an unlocked mutex"))
-		}
-	}()
+	// only the caller that clears the flag releases the native mutex
+	if !m.locked.CompareAndSwap(true, false) {
+		return Ref(NewError(MutexUnlockedErrorClass, "cannot unlock an unlocked mutex"))
+	}
 
 	m.Native.Unlock()
 	return Undefined
